@@ -6,8 +6,7 @@ SPEC = {
     "targets": ["Properties/C05.vo", "Run/C05.vo"],
     "theorems": {"Properties.C05": ["C05_lint_exit_iff", "C05_ci_exit_iff", "C05_min_severity_irrelevant",
                                     "C05_below_threshold_passes", "C05_severity_tables", "C05_nonvacuous",
-                                    "C05_lint_flow_partial", "C05_lint_flow_refuted", "C05_lint_crash_exact",
-                                    "C05_ci_flow_partial", "C05_ci_flow_refuted", "C05_no_reports_passes", "C05_exit_paths_of_the_source",
+                                    "C05_lint_flow", "C05_ci_flow", "C05_no_reports_passes", "C05_exit_paths_of_the_source", "C05_stage_order_of_the_source",
                                     "C05_flag_defaults", "C05_base_branch_plain", "C05_flow_nonvacuous"]},
     "harness_args": lambda tier: ["C05", "--n", 25 if tier == "quick" else 400],
     "search_args": lambda tier: ["C05", "--n", 150],
@@ -17,20 +16,19 @@ SPEC = {
         "translator core.go (go/ast): Severity iota block, ParseSeverity and Severity.String switch tables -> Gen/Tables.v",
         "translator ext_C05.go (go/ast of cmd/pint): default value of every cli flag of the root/lint/ci commands, every return statement of "
         "actionLint/actionCI/actionSetup (nil or error, before or after checkRules), normalised shape of the two threshold decisions "
-        "(operator between the CountBySeverity key and the once-assigned parsed --fail-on value, accumulation, final test), exit code of main(), shape of "
+        "(operator between the CountBySeverity key and the once-assigned parsed --fail-on value, accumulation, final test), exit code of main(), the stage of every return statement in source order (by the callee whose error is returned; unknown callee = error), shape of "
         "reporter.Summary.CountBySeverity (every report counted once under its own severity, no filter or weight) -> Gen/C05.v; fails closed",
         "correspondence: the real pint binary (lint and ci) on generated files/configs x flag settings x one injected fault per error return "
-        "(no path, missing path, bad/missing config, --workers 0, bad log level, unwritable --json/--checkstyle, not a git repository, unknown base branch, "
-        "github reporter without token) x pint ci from the base branch (spellings) / on a branch without changes x reporting flags "
+        "(no path, missing path, bad/missing config, --workers 0, bad log level, unwritable --json/--checkstyle, failing Prometheus discovery = checkRules error, "
+        "--json /dev/full = Submit error, not a git repository, unknown base branch, github reporter without token; GenerateStatic cannot fail after a successful config.Load) x pint ci from the base branch (spellings) / on a branch without changes x reporting flags "
         "(--teamcity, --checkstyle, --require-owner, --show-duplicates): exit status zero/non-zero vs Model/ExitFlow.v evaluated on the severities of pint's own --json report "
         "(the report must exist whenever the model says it was submitted; what happens to the report on early errors and which of two failures wins are model facts that are not compared)",
-        "modelled not verified from Go source: the ORDER of the stages inside actionLint/actionCI (hand-written in Model/ExitFlow.v, validated by the fault runs and "
-        "constrained by the generated return tables), Summary.Report/CountBySeverity; urfave/cli flag parsing, the Go runtime's exit status 2 on panic, JSON encoding are trusted",
+        "modelled not verified from Go source: the TOTAL order of the stages inside actionLint/actionCI (hand-written in Model/ExitFlow.v; the partial order the exit status "
+        "depends on is an obligation over the generated stage sequences, the rest is validated by the fault runs and coincides with the generated sequence today), Summary.Report; urfave/cli flag parsing, JSON encoding are trusted; an exit status other than 0/1 is a crash (VIOLATION)",
     ],
     "assumptions": [
         "the --json report lists every report of the Summary (json.go iterates Summary.Reports() unfiltered)",
         "the outcome of every stage that depends on the outside world (config loading, discovery, git, Prometheus generation, file creation, reporter submission) is an input of the model",
-        "lint_crashes / ci_crashes = false is the guard of the _partial flow theorems (known finding C05-require-owner-broken-rule-crash)",
     ],
 }
 
@@ -46,15 +44,14 @@ MANIFEST = {
             "computed, outcomes of the outside world as inputs): a failing stage exits non-zero without submitting reports; an invalid --min-severity/--fail-on is detected "
             "after linting (lint: no report file; ci: empty report file); pint ci run from the base branch exits 0 without linting (the only exit-0 path that ignores the "
             "reports); otherwise exit != 0 iff a report reaches --fail-on and the reports were submitted; a branch producing no report passes for every valid --fail-on. "
-            "The flow statements are proved with the guard 'verifyOwners does not crash' and REFUTED without it (witness = a genuine pint defect: --require-owner plus a rule "
-            "that failed to parse panics with exit status 2 even when nothing is reported). (3) Finite, over Gen/C05.v regenerated from cmd/pint: in actionLint/actionSetup only "
+            "(Full theorems since fix ec90fa6: the defect this check found - --require-owner plus a rule that failed to parse panicked with exit status 2 - is repaired; its reverse "
+            "patch is a mutant and its witness a regression scenario.) (3) Finite, over Gen/C05.v regenerated from cmd/pint: in actionLint/actionSetup only "
             "the last return is nil, actionCI has exactly one more nil return placed before checkRules, both threshold decisions compare 'severity >= fail-on' with a "
-            "never-reassigned parsed value, main exits 1 on error, CountBySeverity counts every report once under its own severity, the flag defaults are fail-on=bug, min-severity=warning. Tied by the two translators and by running the real "
+            "never-reassigned parsed value, main exits 1 on error, the stage sequence of the returns respects setup < linting < submission < threshold (last, followed by the final nil), CountBySeverity counts every report once under its own severity, the flag defaults are fail-on=bug, min-severity=warning. Tied by the two translators and by running the real "
             "binary (exit status; report present whenever the model says submitted) over generated scenarios, a 4x4 severity/fail-on grid incl. severities fixed in built-in checks, the same issue reported with two different severities (both orders), "
             "a ci branch deleting a still-referenced rule file and renaming another, one "
             "injected fault per error path, base-branch / no-change ci layouts and reporting flags.",
     "note": "Coq 8.16.1 kernel+VM, no axioms; translators trusted for table extraction; stage order and Summary hand-modelled and validated by differential execution of the "
-            "binary (not verified from Go source); cli parsing, panic exit status, JSON encoding trusted. Open known finding C05-require-owner-broken-rule-crash "
-            "(candidate patch notes/candidate-fixes/C05-require-owner-broken-rule.patch).",
+            "binary (not verified from Go source); cli parsing, JSON encoding trusted. No open known finding (C05-require-owner-broken-rule-crash was repaired by ec90fa6).",
     "technique": "Coq theorems over fold/assoc-list model + staged control-flow model + AST-generated severity/flag/exit-path tables + binary-level differential correspondence with fault injection",
 }
